@@ -34,13 +34,19 @@ struct ContactElemBase : Elem {
         // variant 0..5 -> (dissipation, friction) cycles independently of the pose through the case index
     }
     void setEnergyFlags(bool d, bool f) { dissip = d; fric = f; damped = d || f; }
+    // Hertz-type energies ~ x^(5/2) are not analytic at x = 0: keep the whole stencil well inside the penetration
+    double fdStepFor(FCase& k, const State& s) override {
+        if (!(depth0 > 0) || b1 < 0 || b2 < 0) return fdStep;
+        double v = 2 * (spMax(k.mob(b1).getBodyVelocity(s)) + spMax(k.mob(b2).getBodyVelocity(s))) * (1 + sizeScale) + 1e-3;
+        return std::max(1e-8, std::min(fdStep, depth0 / (40 * v)));
+    }
 };
 
 // =========================================================================== HuntCrossleyForce
 struct HuntCrossleyElem : ContactElemBase {
     std::unique_ptr<GeneralContactSubsystem> contacts; std::unique_ptr<GeneralForceSubsystem> forces2;
     ContactSetIndex set; std::unique_ptr<HuntCrossleyForce> hc; Mat5 m1, m2; double r1 = 0, r2 = 0; bool halfSpace = false;
-    HuntCrossleyElem() { name = "HuntCrossleyForce"; hasReference = false; reportsPE = true; evalStage = Stage::Dynamics; peStage = Stage::Dynamics; }
+    HuntCrossleyElem() { name = "HuntCrossleyForce"; hasReference = false; reportsPE = true; evalStage = Stage::Dynamics; peStage = Stage::Dynamics; fdStep = 1e-4; }   // PE ~ x^(5/2): small step
     bool build(FCase& k, const State& p, Rng& r, int attachCls, int variant, std::string&) override {
         k.pickPair(r, attachCls, b1, b2, attach);
         halfSpace = (variant % 2) == 1; pose = (variant / 2) % 3;
@@ -87,7 +93,7 @@ struct HuntCrossleyElem : ContactElemBase {
 struct ElasticFoundationElem : ContactElemBase {
     std::unique_ptr<GeneralContactSubsystem> contacts; std::unique_ptr<GeneralForceSubsystem> forces2;
     ContactSetIndex set; std::unique_ptr<ElasticFoundationForce> ef; Mat5 m1, m2; double rm = 0, r2 = 0; int other = 0; int res = 1; double area = 0;
-    ElasticFoundationElem() { name = "ElasticFoundationForce"; hasReference = false; reportsPE = true; evalStage = Stage::Dynamics; peStage = Stage::Dynamics; }
+    ElasticFoundationElem() { name = "ElasticFoundationForce"; hasReference = false; reportsPE = true; evalStage = Stage::Dynamics; peStage = Stage::Dynamics; fdStep = 1e-4; }
     bool build(FCase& k, const State& p, Rng& r, int attachCls, int variant, std::string&) override {
         k.pickPair(r, attachCls, b1, b2, attach);
         other = variant % 3;  // 0 half-space, 1 sphere, 2 another mesh
@@ -134,7 +140,7 @@ struct ElasticFoundationElem : ContactElemBase {
 struct CompliantElem : ContactElemBase {
     std::unique_ptr<ContactTrackerSubsystem> tracker; std::unique_ptr<CompliantContactSubsystem> compliant;
     int pair = 0; Mat5 m1, m2; double ext1 = 0, r2 = 0; Vec3 radii;
-    CompliantElem() { name = "CompliantContactSubsystem"; hasReference = false; reportsPE = true; evalStage = Stage::Dynamics; peStage = Stage::Position; }
+    CompliantElem() { name = "CompliantContactSubsystem"; hasReference = false; reportsPE = true; evalStage = Stage::Dynamics; peStage = Stage::Position; fdStep = 1e-4; documentedYankOut = true; }
     bool build(FCase& k, const State& p, Rng& r, int attachCls, int variant, std::string&) override {
         if (attachCls == 3) attachCls = 2;      // surfaces on the same body never interact (documented); use two bodies
         k.pickPair(r, attachCls, b1, b2, attach);
@@ -176,6 +182,7 @@ struct CompliantElem : ContactElemBase {
             B2.updBody().addContactSurface(Transform(~X2 * c2G), ContactSurface(ContactGeometry::Sphere(r2), cm2));
         }
         (void)c1G;
+        name = std::string("CompliantContact-") + (pair <= 1 ? "HertzCircular" : pair <= 3 ? "HertzElliptical" : pair == 4 ? "ElasticFoundation" : "BrickHalfSpacePenalty");
         regime = std::string(nm1) + (otherIsHalfSpace ? "-halfspace/" : "-sphere/") + poseName(pose) + (dissip ? "/c" : "/c0") + (fric ? "/mu" : "/mu0");
         return true;
     }
@@ -229,7 +236,7 @@ struct SmoothSphereElem : ContactElemBase {
 // =========================================================================== ExponentialSpringForce
 struct ExpSpringElem : ContactElemBase {
     std::unique_ptr<ExponentialSpringForce> es; Vec3 st; double pz0 = 0; bool zeroMu = true; Transform X_GP; double cz = 0, d0 = 0, d1 = 0, d2 = 0;
-    ExpSpringElem() { name = "ExponentialSpringForce"; hasReference = false; reportsPE = true; evalStage = Stage::Dynamics; peStage = Stage::Dynamics; fdStep = 2e-5; }
+    ExpSpringElem() { name = "ExponentialSpringForce"; hasReference = false; reportsPE = true; evalStage = Stage::Dynamics; peStage = Stage::Dynamics; fdStep = 5e-6; }   // PE ~ exp(-1150 z)
     bool build(FCase& k, const State& p, Rng& r, int, int variant, std::string&) override {
         b1 = r.integer(1, k.numMobile()); b2 = 0; attach = "B-G";   // the contact plane is fixed to Ground (documented)
         pose = variant % 3;
@@ -261,7 +268,11 @@ struct ExpSpringElem : ContactElemBase {
 struct CableSpringElem : ContactElemBase {
     std::unique_ptr<CableTrackerSubsystem> cables; std::unique_ptr<CablePath> path; CableSpring cs;
     Vec3 s1, s2, sv; int bv = -1; double kk = 0, L0 = 0, cc = 0, Lprobe = 0;
-    CableSpringElem() { name = "CableSpring"; hasReference = false; reportsPE = true; evalStage = Stage::Velocity; peStage = Stage::Position; }
+    // CablePath::Impl::realizeTopology() writes debugging text to std::cout; the harness protocol uses stdio, so
+    // std::cout is silenced while a cable element is alive
+    CableSpringElem() { name = "CableSpring"; hasReference = false; reportsPE = true; evalStage = Stage::Velocity; peStage = Stage::Position; std::cout.setstate(std::ios_base::failbit); }
+    ~CableSpringElem() override { std::cout.clear(); }
+    bool pureTwoBody() override { return bv < 0; }
     bool build(FCase& k, const State& p, Rng& r, int attachCls, int variant, std::string&) override {
         k.pickPair(r, attachCls, b1, b2, attach);
         s1 = randVec3(r, 1.0); s2 = randVec3(r, 1.0); if (b1 == b2) while ((s2 - s1).norm() < 0.3) s2 = randVec3(r, 1.0);
